@@ -206,7 +206,7 @@ class Run:
     # which generated models the property files of each property import (directly or through the tie files)
     NEEDS = {'C01': ['formulas'], 'C02': ['formulas', 'pipeline'], 'C03': ['pipeline'], 'C04': ['skeleton'], 'C05': ['blocks'], 'C06': ['blocks'], 'C07': ['formulas'],
              'C08': ['pipeline'], 'C09': ['skeleton'], 'C10': ['skeleton'], 'C11': ['formulas', 'pipeline'], 'C12': ['formulas'], 'C13': ['blocks'],
-             'C14': ['blocks', 'formulas', 'pipeline'], 'C15': ['blocks'], 'C16': ['cover'], 'C17': ['blocks', 'pipeline'], 'C18': ['skeleton', 'blocks'], 'C19': ['cli_surface'], 'C20': ['blocks']}
+             'C14': ['blocks', 'formulas', 'pipeline'], 'C15': ['blocks', 'bands'], 'C16': ['cover'], 'C17': ['blocks', 'pipeline'], 'C18': ['skeleton', 'blocks'], 'C19': ['cli_surface'], 'C20': ['blocks']}
 
     def regenerate(self, needs=None):
         """Re-run the translators on /repo's current working tree (coq/gen/*.v are rewritten only when they change).  A translator that
@@ -222,7 +222,7 @@ class Run:
             with CoqLock():
                 rc, out = sh([PY, str(VERIF / 'translate' / 'regen.py')], 120, cwd=VERIF)
         self.checker_cmds.append('translate/regen.py  (regenerates coq/gen/*.v from /repo)')
-        self.trusted.append('translators translate/{skeleton,cli_surface,formulas,blocks,pipeline,cover}.py + resolve.py (python ast / click introspection, fail-closed)')
+        self.trusted.append('translators translate/{skeleton,cli_surface,formulas,blocks,pipeline,cover,bands}.py + resolve.py (python ast / click introspection, fail-closed)')
         failed = [n for n in needs if re.search(rf'^{n} FAILED', out, re.M) or (rc != 0 and not re.search(rf'^{n} ok', out, re.M))]
         if failed:
             self.broken.append(dict(kind='proof-break', what='translator could not translate the current source (unrecognised construct): ' + ', '.join(failed),
